@@ -110,8 +110,10 @@ fn check_spec<SPEC: Spec>() {
         // inside an EOF container the EOF opcodes exist
         assert!(!says_not_existing(r));
     }
-    // a non-existing opcode consumes nothing and touches nothing but the result code
+    // a non-existing opcode is an exceptional HALT (error class: the frame's gas is consumed), never a
+    // success or a revert (which would hand the remaining gas back)
     if says_not_existing(r) {
+        assert!(r.is_error() && !r.is_ok() && !r.is_revert());
         assert!(interp.gas.remaining() == 0 && interp.gas.refunded() == 0);
         assert!(interp.stack.len() == 0);
     }
